@@ -12,12 +12,16 @@
 //!                     swapped from a dictionary of PDF keys, tokens deleted / duplicated, references re-pointed
 //!   grammar           documents from the grammar-directed generator (docgen.rs), plain and mutated
 //!   soup              `%PDF-` followed by random token soup / random bytes
+//!   witness           deterministic documents that stress the native stack and the loops of the lexical core
+//!                     (300000 line continuations in a string, 200000 nested arrays, 300000 comments, …):
+//!                     regression witnesses of the repaired defects
 //! A document counts as a failure when any call panics, the child dies (stack overflow, abort, allocation
 //! failure) or the walk exceeds its time limit. Failures are classified by the panic site (`file:line`) or by
 //! the kind of death; the replay file holds the bytes and the configuration.
 //!
-//! Correspondence streams for the lexical / syntactic core (model = Model/Lexer, StrLexer, Parser) live in
-//! c01_corr.rs once those models are merged; every input of those streams is in C01's domain.
+//! Correspondence streams for the lexical / syntactic core (model = Model/Lexer, StrLexer, Parser, ContentLoop,
+//! XrefTable) and the function-level oracle `c01.entry` live in c01_corr.rs; every input of those streams is in
+//! C01's domain.
 
 use crate::c14::walker::{self, Doc, DocResult, Limits, Outcome};
 use crate::corpus;
@@ -90,9 +94,83 @@ fn soup(rng: &mut Rng) -> Vec<u8> {
     b
 }
 
+/// a classic-table document with the given object bodies (object 1 is the catalog, 2 the page tree)
+fn tiny_doc(extra: &[Vec<u8>]) -> Vec<u8> {
+    tiny_doc_pages(b"<</Type/Pages/Kids[]/Count 0>>", extra)
+}
+
+fn tiny_doc_pages(pages: &[u8], extra: &[Vec<u8>]) -> Vec<u8> {
+    let mut objs: Vec<Vec<u8>> = vec![b"<</Type/Catalog/Pages 2 0 R>>".to_vec(), pages.to_vec()];
+    objs.extend(extra.iter().cloned());
+    let mut b = b"%PDF-1.4\n".to_vec();
+    let mut offs = vec![];
+    for (i, o) in objs.iter().enumerate() {
+        offs.push(b.len());
+        b.extend_from_slice(format!("{} 0 obj\n", i + 1).as_bytes());
+        b.extend_from_slice(o);
+        b.extend_from_slice(b"\nendobj\n");
+    }
+    let x = b.len();
+    b.extend_from_slice(format!("xref\n0 {}\n0000000000 65535 f \n", objs.len() + 1).as_bytes());
+    for o in offs {
+        b.extend_from_slice(format!("{:010} 00000 n \n", o).as_bytes());
+    }
+    b.extend_from_slice(format!("trailer\n<</Size {}/Root 1 0 R>>\nstartxref\n{}\n%%EOF", objs.len() + 1, x).as_bytes());
+    b
+}
+
+fn repeat(piece: &[u8], n: usize, head: &[u8], tail: &[u8]) -> Vec<u8> {
+    let mut v = head.to_vec();
+    for _ in 0..n {
+        v.extend_from_slice(piece);
+    }
+    v.extend_from_slice(tail);
+    v
+}
+
+/// Deterministic documents that stress the *native stack* and the loops of the lexical core: regression
+/// witnesses of the defects this package repaired (the run of line continuations overflowed the stack) and
+/// of the bounds the theorems state (nesting limit, loops that consume input).
+fn witness_docs() -> Vec<(&'static str, Vec<u8>)> {
+    let k = 300_000;
+    vec![
+        ("string with 300000 line continuations (LF)", tiny_doc(&[repeat(b"\\\n", k, b"(", b"x)")])),
+        ("string with 300000 line continuations (CR)", tiny_doc(&[repeat(b"\\\r", k, b"(", b"x)")])),
+        ("string with 300000 line continuations (CR LF), unterminated", tiny_doc(&[repeat(b"\\\r\n", k, b"(", b"")])),
+        ("content stream holding a string with 300000 line continuations", {
+            let body = repeat(b"\\\n", k, b"BT (", b"x) Tj ET");
+            let mut o = format!("<</Length {}>>\nstream\n", body.len()).into_bytes();
+            o.extend_from_slice(&body);
+            o.extend_from_slice(b"\nendstream");
+            let page = b"<</Type/Page/Parent 2 0 R/MediaBox[0 0 9 9]/Contents 3 0 R>>".to_vec();
+            tiny_doc_pages(b"<</Type/Pages/Kids[4 0 R]/Count 1>>", &[o, page])
+        }),
+        ("array nested 200000 deep", tiny_doc(&[repeat(b"[", 200_000, b"", b"")])),
+        ("dictionary nested 100000 deep", tiny_doc(&[repeat(b"<</A ", 100_000, b"", b"")])),
+        ("300000 comments in front of a token", tiny_doc(&[repeat(b"%c\n", k, b"", b"7")])),
+        ("string with 1000000 opening parentheses", tiny_doc(&[repeat(b"(", 1_000_000, b"(", b"")])),
+        ("hexadecimal string of 1000000 white-space bytes", tiny_doc(&[repeat(b" ", 1_000_000, b"<", b"41>")])),
+        ("name of 1000000 characters", tiny_doc(&[repeat(b"a", 1_000_000, b"/", b"")])),
+        ("sampled function with /Domain [0 1 3 1] (min > max: f32::clamp panicked)",
+            tiny_doc(&[b"<</FunctionType 0/Domain[0 1 3 1]/Range[0 1]/Size[2 2]/BitsPerSample 8/Length 4>>\nstream\n\x00\x40\x80\xff\nendstream".to_vec()])),
+        ("xref subsection that claims 4294967295 entries", {
+            let mut d = tiny_doc(&[]);
+            let pat = b"xref\n0 3\n";
+            if let Some(i) = d.windows(pat.len()).position(|w| w == pat) { d.splice(i..i + pat.len(), b"xref\n0 4294967295\n".iter().cloned()); }
+            d
+        }),
+    ]
+}
+
 fn build_cases(seed: u64, thorough: bool) -> (Vec<Case>, Vec<String>) {
     let mut cases = vec![];
     let mut notes = vec![];
+    for (desc, bytes) in witness_docs() {
+        for c in [0u64, 3] {
+            let (t, ca) = cfg(c);
+            cases.push(Case { family: "witness", desc: desc.to_string(), doc: Doc { bytes: bytes.clone(), tolerant: t, cached: ca } });
+        }
+    }
     let fixtures = corpus::fixture_files();
     let scale = if thorough { 60 } else { 4 };
     let mut normalised: Vec<(String, Vec<u8>)> = vec![];
@@ -196,8 +274,9 @@ pub fn run(driver: &Driver, seed: u64, thorough: bool, replay: Option<&serde_jso
             rep.oracles.push(or);
             return rep;
         }
-        if let Some(st) = corr::replay(driver, r) {
+        if let Some((st, or)) = corr::replay(driver, r) {
             rep.streams.push(st);
+            rep.oracles.push(or);
             return rep;
         }
     }
@@ -229,6 +308,8 @@ pub fn run(driver: &Driver, seed: u64, thorough: bool, replay: Option<&serde_jso
     rep.extra.insert("entry_points_reached".into(), json!(calls_total));
     rep.extra.insert("slowest_document".into(), json!({"ms": slowest.0, "doc": slowest.1}));
     rep.oracles.push(or);
-    rep.streams.extend(corr::streams(driver, seed, thorough));
+    let (streams, entry) = corr::streams(driver, seed, thorough);
+    rep.streams.extend(streams);
+    rep.oracles.push(entry);
     rep
 }
